@@ -23,6 +23,9 @@ type authEx struct {
 	keys  map[string]*simpeer.User // "K0:ed" -> user
 	addrs map[string][]byte        // "A0" -> raw address
 	junk  map[string]string
+	// signatures already produced in this history, by key symbol and signed bytes: a request that
+	// re-uses an earlier signature carries the very same bytes (GOST signatures are randomised)
+	sigBytes map[string]string
 }
 
 var keyPool = map[string]*simpeer.User{}
@@ -145,7 +148,16 @@ func (e *authEx) Exec(op string) string {
 				if !ok {
 					return "bad-op"
 				}
-				sigReal[p[0]] = u.Sign([]byte(realise(q[3])))
+				if e.sigBytes == nil {
+					e.sigBytes = map[string]string{}
+				}
+				ck := q[2] + "|" + q[1] + "|" + realise(q[3])
+				if old, ok := e.sigBytes[ck]; ok {
+					sigReal[p[0]] = old
+				} else {
+					sigReal[p[0]] = u.Sign([]byte(realise(q[3])))
+					e.sigBytes[ck] = sigReal[p[0]]
+				}
 			default:
 				return "bad-op"
 			}
@@ -193,7 +205,7 @@ func (e *authEx) Exec(op string) string {
 		n, _ := strconv.Atoi(ap[3])
 		resp := &fpb.AclResponse{
 			Address: &fpb.SignedAddress{
-				Address:         &fpb.Address{Address: poolAddr(ap[1]), IsMultisig: len(realKeys) > 1},
+				Address:         &fpb.Address{Address: poolAddr(ap[1]), IsMultisig: multisigFlag(ap[4], len(realKeys) > 1)},
 				SignaturePolicy: &fpb.SignaturePolicy{N: uint32(n)},
 			},
 			KeyTypes: kts,
@@ -290,6 +302,21 @@ func (e *authEx) Exec(op string) string {
 		}
 	}
 	return "ok ?" + who
+}
+
+// multisigFlag: the sixth flag character says what the ACL reports in Address.is_multisig:
+// absent/'0' = consistent with the key count, '1' = false, '2' = true. The flag is informational:
+// the number of signatures needed follows from the key list and the policy, not from it.
+func multisigFlag(flags string, dflt bool) bool {
+	if len(flags) > 5 {
+		switch flags[5] {
+		case '1':
+			return false
+		case '2':
+			return true
+		}
+	}
+	return dflt
 }
 
 func sameState(a, b map[string][]byte) bool {
